@@ -226,39 +226,6 @@ fn k_needed_bytes_usize() {
     kani::cover!(v > 0xffff);
 }
 
-// oblig: C14.byte_size_parse kind=complete
-#[kani::proof]
-#[kani::stub(std::fmt::format, fmt_stub)]
-#[kani::stub(std::backtrace::Backtrace::capture, bt_stub)]
-fn k_bytesize_parse_total() {
-    let data: [u8; 1] = kani::any();
-    let mut p = SliceParser::new(std::borrow::Cow::Borrowed(&data[..]), Offset::zero());
-    match ByteSize::parse(&mut p) {
-        Ok(b) => assert!(1 <= data[0] && data[0] <= 8 && b as usize == data[0] as usize),
-        Err(_) => assert!(data[0] == 0 || data[0] > 8),
-    }
-    kani::cover!(data[0] == 8);
-}
-
-// oblig: C14.fullpackkind kind=complete
-#[kani::proof]
-#[kani::stub(std::fmt::format, fmt_stub)]
-#[kani::stub(std::backtrace::Backtrace::capture, bt_stub)]
-fn k_fullpackkind_parse() {
-    use crate::common::{FullPackKind, PackKind};
-    let data: [u8; 4] = kani::any();
-    let mut p = SliceParser::new(std::borrow::Cow::Borrowed(&data[..]), Offset::zero());
-    let code = |k: PackKind| k as u8;
-    match FullPackKind::parse(&mut p) {
-        Ok(k) => {
-            assert!(data[0] == 0x6a && data[1] == 0x62 && data[2] == 0x6b && data[3] == code(k));
-            assert!(data[3] == 0x6d || data[3] == 0x64 || data[3] == 0x63 || data[3] == 0x43);
-            assert!(p.global_offset().into_u64() == 4);
-        }
-        Err(_) => assert!(!(data[0] == 0x6a && data[1] == 0x62 && data[2] == 0x6b && (data[3] == 0x6d || data[3] == 0x64 || data[3] == 0x63 || data[3] == 0x43))),
-    }
-    kani::cover!(data[0] == 0x6a && data[1] == 0x62 && data[2] == 0x6b && data[3] == 0x43);
-}
 // oblig: C14.fullpackkind kind=complete
 #[kani::proof]
 fn k_fullpackkind_serialize() {
